@@ -157,7 +157,7 @@ Definition surface_verdict (ver : bytes) (sp : rspec) (t : json) (hok : bool) (l
   | None => bs "FAIL unparsable JSON()"
   end.
 
-Definition prop_surface (args : list bytes) : bytes :=
+Definition prop_surface0 (args : list bytes) : bytes :=
   match args with
   | [ver; otxt; ttxt; real; class; obs] =>
       match spec_of_version ver, parse_json ttxt, split_lines obs [] with
@@ -196,6 +196,33 @@ Definition prop_surface (args : list bytes) : bytes :=
       | _, _, _ => bs "FAIL shape"
       end
   | _ => bs "badargs"
+  end.
+
+(* F66: a member outside every keep-list whose name encoding/json matches to a kept one (ASCII
+   case, U+017F for s, U+212A for k) is redactable material for the specification; the library's
+   redaction lets it replace or add protected members.  Failures on such inputs carry their own
+   prefix (the recorded finding), any other failure keeps the plain one. *)
+Definition lower_ascii (s : bytes) : bytes := map (fun c => if (65 <=? c) && (c <=? 90) then c + 32 else c) s.
+Definition folded_top (k : bytes) : bool :=
+  negb (mem_bytes k top_v1) && mem_bytes (lower_ascii (fold_name k)) top_v1.
+
+Fixpoint has_infix (p s : bytes) : bool :=
+  match s with
+  | [] => is_prefix p []
+  | _ :: r => is_prefix p s || has_infix p r
+  end.
+
+Definition prop_surface (args : list bytes) : bytes :=
+  let v := prop_surface0 args in
+  match args with
+  | [_; _; ttxt; _; _; obs] =>
+      if has_infix (bs "LEAK sender-chosen event ID") obs
+      then bs "FAIL-SENDER-CHOSEN-ID EventID() is a value the sender wrote into the event"
+      else
+      if is_prefix (bs "FAIL ") v &&
+         match parse_json ttxt with Some t => existsb folded_top (jkeys t) | None => false end
+      then bs "FAIL-FOLDED-MEMBER " ++ v else v
+  | _ => v
   end.
 
 Definition ops_C04 : list (bytes * (list bytes -> bytes)) :=
